@@ -577,12 +577,30 @@ func getMultiBestPath(id string, pathList []*Path) []*Path {
 	}
 	best := pathList[0]
 
-	// Attempt to find the first path that is both reachable and worse than the
-	// best path. Then return a slice paths from the best to that index.
-	index := sort.Search(len(pathList), func(i int) bool {
-		return pathList[i].IsNexthopInvalid || pathList[i].Compare(best) != 0
-	})
+	// Attempt to find the first path that is either unreachable or worse than
+	// the best path. Then return a slice paths from the best to that index.
+	// The list is sorted by the decision process of insertSort, so "worse"
+	// must be judged by the same steps (Path.Compare orders differently) and
+	// the paths are walked in list order.
+	index := 1
+	for index < len(pathList) && !pathList[index].IsNexthopInvalid && isEqualCost(best, pathList[index]) {
+		index++
+	}
 	return pathList[:index]
+}
+
+// isEqualCost reports whether none of the steps of the decision process before
+// the final tie breaking (age, router ID, neighbor address) prefers one of the
+// two paths.
+func isEqualCost(path1, path2 *Path) bool {
+	return compareByLLGRStaleCommunity(path1, path2) == nil &&
+		compareByReachableNexthop(path1, path2) == nil &&
+		compareByLocalPref(path1, path2) == nil &&
+		path1.IsLocal() == path2.IsLocal() &&
+		compareByASPath(path1, path2) == nil &&
+		compareByOrigin(path1, path2) == nil &&
+		compareByMED(path1, path2) == nil &&
+		compareByASNumber(path1, path2) == nil
 }
 
 func (u *Update) GetWithdrawnPath() []*Path {
